@@ -80,12 +80,30 @@ class _read(Contract):
                                    patterns=[l_at(c.result.t, j), l_at(items, j)]))]
 
 
+def _write_fault_append(c):
+    """C13: a write to storage may fail (an I/O error): the list written to then holds its old contents followed by some prefix of the new rows"""
+    def ens(cc):
+        o, n = cc.old.self.t, cc.self.t
+        pts = cc.points.t
+        j = z3.Int(fresh_name("j"))
+        k = z3.Int(fresh_name("written"))
+
+        def partly(new, old):
+            return z3.And(0 <= k, k <= l_len(pts), l_len(new) == l_len(old) + k,
+                          forall([j], z3.Implies(z3.And(0 <= j, j < l_len(old)), l_at(new, j) == l_at(old, j)), patterns=[l_at(new, j), l_at(old, j)]),
+                          forall([j], z3.Implies(z3.And(0 <= j, j < k), l_at(new, l_len(old) + j) == l_at(pts, j)), patterns=[l_at(pts, j)]))
+        return [("old_rows_plus_a_prefix_of_the_new", z3.If(cc.temporary.t, z3.And(partly(n["temp"].t, o["temp"].t), n["items"].t == o["items"].t),
+                                                          z3.And(partly(n["items"].t, o["items"].t), n["temp"].t == o["temp"].t)))]
+    return dict(when=z3.BoolVal(True), exact=False, ensures=ens)
+
+
 @contract(_SQ + "append")
 class _append(Contract):
     params = dict(self=STG, points=LItem, temporary=TBool)
     defaults = dict(temporary=lambda ex: mk_bool(False))
     modifies = ("items", "temp")
     assumed = True
+    raises = {"WriteFault": staticmethod(_write_fault_append)}
 
     @staticmethod
     def ensures(c):
@@ -108,6 +126,9 @@ class _swap(Contract):
     params = dict(self=STG)
     modifies = ("items",)
     assumed = True
+    # C12/C13: the swap is atomic - when it fails, primary storage holds the old or the new contents (it may fail AFTER the new contents are in place)
+    raises = {"WriteFault": staticmethod(lambda c: dict(when=z3.BoolVal(True), exact=False, ensures=lambda cc: [
+        ("old_or_new", z3.Or(cc.self.t["items"].t == cc.old.self.t["items"].t, cc.self.t["items"].t == cc.old.self.t["temp"].t))]))}
 
     @staticmethod
     def ensures(c):
@@ -119,6 +140,8 @@ class _sreset(Contract):
     params = dict(self=STG)
     modifies = ("items",)
     assumed = True
+    raises = {"WriteFault": staticmethod(lambda c: dict(when=z3.BoolVal(True), exact=False, ensures=lambda cc: [
+        ("old_or_empty", z3.Or(cc.self.t["items"].t == cc.old.self.t["items"].t, l_len(cc.self.t["items"].t) == 0))]))}
 
     @staticmethod
     def ensures(c):
